@@ -1105,6 +1105,410 @@ theorem slack_attained_numBits (log : Bool) (v : ℝ) (s : ℕ) (hs : (s : ℝ) 
 
 end Slack
 
+/-! ## L11-enum : a finite set / dict with exactly `n` entries, `n` of which are known and distinct -/
+
+section L11
+variable {κ : Type*} {M : Type*} {N : Type*}
+
+/-- A finite set of cardinality `n` that contains `n` pairwise distinct elements has no others. -/
+theorem finset_eq_of_card_nodup [DecidableEq κ] {s : Finset κ} {l : List κ} (hnd : l.Nodup)
+    (hmem : ∀ k ∈ l, k ∈ s) (hcard : s.card = l.length) : s = l.toFinset := by
+  symm
+  apply Finset.eq_of_subset_of_card_le
+  · intro k hk
+    exact hmem k (List.mem_toFinset.mp hk)
+  · rw [List.toFinset_card_of_nodup hnd, hcard]
+
+/-- membership form (no decidable equality needed to state it) -/
+theorem mem_iff_of_card_nodup {s : Finset κ} {l : List κ} (hnd : l.Nodup)
+    (hmem : ∀ k ∈ l, k ∈ s) (hcard : s.card = l.length) (k : κ) : k ∈ s ↔ k ∈ l := by
+  classical
+  rw [finset_eq_of_card_nodup hnd hmem hcard, List.mem_toFinset]
+
+/-- every sum fold of the dict `(s, f)` is the sum over the enumerated keys -/
+theorem dict_sum_enum [AddCommMonoid N] {s : Finset κ} {l : List κ} (hnd : l.Nodup)
+    (hmem : ∀ k ∈ l, k ∈ s) (hcard : s.card = l.length) (f : κ → M) (t : κ → M → N) :
+    ∑ i ∈ s, t i (f i) = (l.map (fun i => t i (f i))).sum := by
+  classical
+  rw [finset_eq_of_card_nodup hnd hmem hcard, List.sum_toFinset _ hnd]
+
+/-- every all fold of the dict `(s, f)` is the conjunction over the enumerated keys -/
+theorem dict_all_enum {s : Finset κ} {l : List κ} (hnd : l.Nodup)
+    (hmem : ∀ k ∈ l, k ∈ s) (hcard : s.card = l.length) (f : κ → M) (P : κ → M → Prop) :
+    (∀ i ∈ s, P i (f i)) ↔ ∀ i ∈ l, P i (f i) := by
+  constructor
+  · exact fun h i hi => h i (hmem i hi)
+  · exact fun h i hi => h i ((mem_iff_of_card_nodup hnd hmem hcard i).mp hi)
+
+/-- the finitely supported form: `d : κ →₀ M` with exactly `n` non-zero entries -/
+theorem finsupp_sum_enum [Zero M] [AddCommMonoid N] {d : κ →₀ M} {l : List κ} (hnd : l.Nodup)
+    (hmem : ∀ k ∈ l, d k ≠ 0) (hcard : d.support.card = l.length) (t : κ → M → N) :
+    d.sum t = (l.map (fun i => t i (d i))).sum :=
+  dict_sum_enum hnd (fun k hk => Finsupp.mem_support_iff.mpr (hmem k hk)) hcard (⇑d) t
+
+/-! ### the domain / value chain built by `nth_item`
+(`alt = {}; alt[k_1] = d[k_1]; …; alt[k_n] = d[k_n]`) -/
+
+theorem dict_dom_chain [DecidableEq κ] (l : List κ) (s0 : Finset κ) :
+    l.foldl (fun s k => insert k s) s0 = s0 ∪ l.toFinset := by
+  induction l generalizing s0 with
+  | nil => simp
+  | cons a l ih =>
+    rw [List.foldl_cons, ih]
+    ext i
+    simp only [Finset.mem_union, Finset.mem_insert, List.toFinset_cons]
+    tauto
+
+theorem dict_dom_chain_empty [DecidableEq κ] (l : List κ) :
+    l.foldl (fun s k => insert k s) (∅ : Finset κ) = l.toFinset := by
+  rw [dict_dom_chain, Finset.empty_union]
+
+theorem dict_val_chain [DecidableEq κ] (l : List κ) (f g : κ → M) (i : κ) :
+    l.foldl (fun g k => Function.update g k (f k)) g i = if i ∈ l then f i else g i := by
+  induction l generalizing g with
+  | nil => simp
+  | cons a l ih =>
+    rw [List.foldl_cons, ih]
+    by_cases hi : i ∈ l
+    · simp [hi]
+    · by_cases hia : i = a
+      · subst hia
+        simp [hi]
+      · simp [hi, hia]
+
+/-- L11 exactly as emitted: `dom d = dom alt` and every sum fold of `d` is the sum fold of `alt`. -/
+theorem dict_enum_chain [DecidableEq κ] [AddCommMonoid N] {s : Finset κ} {l : List κ}
+    (hnd : l.Nodup) (hmem : ∀ k ∈ l, k ∈ s) (hcard : s.card = l.length) (f g : κ → M)
+    (t : κ → M → N) :
+    s = l.foldl (fun s k => insert k s) ∅ ∧
+      ∑ i ∈ s, t i (f i)
+        = ∑ i ∈ l.foldl (fun s k => insert k s) ∅,
+            t i (l.foldl (fun g k => Function.update g k (f k)) g i) := by
+  have hs : s = l.toFinset := finset_eq_of_card_nodup hnd hmem hcard
+  rw [dict_dom_chain_empty]
+  refine ⟨hs, ?_⟩
+  rw [← hs]
+  refine Finset.sum_congr rfl (fun i hi => ?_)
+  rw [dict_val_chain, if_pos ((mem_iff_of_card_nodup hnd hmem hcard i).mp hi)]
+
+/-! ### the instances `n = 0, 1, 2, 3` used by the verifier -/
+
+theorem finset_card_zero_enum {s : Finset κ} (hcard : s.card = 0) : s = ∅ :=
+  Finset.card_eq_zero.mp hcard
+
+theorem finset_card_one_enum [DecidableEq κ] {s : Finset κ} {k₁ : κ} (hcard : s.card = 1)
+    (h₁ : k₁ ∈ s) : s = {k₁} := by
+  have h := finset_eq_of_card_nodup (s := s) (l := [k₁]) (by simp) (by simpa using h₁)
+    (by simpa using hcard)
+  simpa using h
+
+theorem finset_card_two_enum [DecidableEq κ] {s : Finset κ} {k₁ k₂ : κ} (hcard : s.card = 2)
+    (h₁ : k₁ ∈ s) (h₂ : k₂ ∈ s) (h12 : k₁ ≠ k₂) : s = {k₁, k₂} := by
+  have h := finset_eq_of_card_nodup (s := s) (l := [k₁, k₂]) (by simp [h12])
+    (by simp [h₁, h₂]) (by simpa using hcard)
+  simpa using h
+
+theorem finset_card_three_enum [DecidableEq κ] {s : Finset κ} {k₁ k₂ k₃ : κ}
+    (hcard : s.card = 3) (h₁ : k₁ ∈ s) (h₂ : k₂ ∈ s) (h₃ : k₃ ∈ s) (h12 : k₁ ≠ k₂)
+    (h13 : k₁ ≠ k₃) (h23 : k₂ ≠ k₃) : s = {k₁, k₂, k₃} := by
+  have h := finset_eq_of_card_nodup (s := s) (l := [k₁, k₂, k₃]) (by simp [h12, h13, h23])
+    (by simp [h₁, h₂, h₃]) (by simpa using hcard)
+  simpa using h
+
+theorem dict_sum_enum_zero [AddCommMonoid N] {s : Finset κ} (hcard : s.card = 0) (f : κ → M)
+    (t : κ → M → N) : ∑ i ∈ s, t i (f i) = 0 := by
+  rw [finset_card_zero_enum hcard, Finset.sum_empty]
+
+theorem dict_sum_enum_one [AddCommMonoid N] {s : Finset κ} {k₁ : κ} (hcard : s.card = 1)
+    (h₁ : k₁ ∈ s) (f : κ → M) (t : κ → M → N) : ∑ i ∈ s, t i (f i) = t k₁ (f k₁) := by
+  have h := dict_sum_enum (s := s) (l := [k₁]) (by simp) (by simpa using h₁)
+    (by simpa using hcard) f t
+  simpa using h
+
+theorem dict_sum_enum_two [AddCommMonoid N] {s : Finset κ} {k₁ k₂ : κ} (hcard : s.card = 2)
+    (h₁ : k₁ ∈ s) (h₂ : k₂ ∈ s) (h12 : k₁ ≠ k₂) (f : κ → M) (t : κ → M → N) :
+    ∑ i ∈ s, t i (f i) = t k₁ (f k₁) + t k₂ (f k₂) := by
+  have h := dict_sum_enum (s := s) (l := [k₁, k₂]) (by simp [h12]) (by simp [h₁, h₂])
+    (by simpa using hcard) f t
+  simpa using h
+
+theorem dict_sum_enum_three [AddCommMonoid N] {s : Finset κ} {k₁ k₂ k₃ : κ}
+    (hcard : s.card = 3) (h₁ : k₁ ∈ s) (h₂ : k₂ ∈ s) (h₃ : k₃ ∈ s) (h12 : k₁ ≠ k₂)
+    (h13 : k₁ ≠ k₃) (h23 : k₂ ≠ k₃) (f : κ → M) (t : κ → M → N) :
+    ∑ i ∈ s, t i (f i) = t k₁ (f k₁) + t k₂ (f k₂) + t k₃ (f k₃) := by
+  have h := dict_sum_enum (s := s) (l := [k₁, k₂, k₃]) (by simp [h12, h13, h23])
+    (by simp [h₁, h₂, h₃]) (by simpa using hcard) f t
+  rw [h]
+  simp [add_assoc]
+
+theorem dict_all_enum_zero {s : Finset κ} (hcard : s.card = 0) (f : κ → M)
+    (P : κ → M → Prop) : ∀ i ∈ s, P i (f i) := by
+  rw [finset_card_zero_enum hcard]
+  simp
+
+theorem dict_all_enum_one {s : Finset κ} {k₁ : κ} (hcard : s.card = 1) (h₁ : k₁ ∈ s)
+    (f : κ → M) (P : κ → M → Prop) : (∀ i ∈ s, P i (f i)) ↔ P k₁ (f k₁) := by
+  have h := dict_all_enum (s := s) (l := [k₁]) (by simp) (by simpa using h₁)
+    (by simpa using hcard) f P
+  simpa using h
+
+theorem dict_all_enum_two {s : Finset κ} {k₁ k₂ : κ} (hcard : s.card = 2) (h₁ : k₁ ∈ s)
+    (h₂ : k₂ ∈ s) (h12 : k₁ ≠ k₂) (f : κ → M) (P : κ → M → Prop) :
+    (∀ i ∈ s, P i (f i)) ↔ P k₁ (f k₁) ∧ P k₂ (f k₂) := by
+  have h := dict_all_enum (s := s) (l := [k₁, k₂]) (by simp [h12]) (by simp [h₁, h₂])
+    (by simpa using hcard) f P
+  simpa using h
+
+theorem dict_all_enum_three {s : Finset κ} {k₁ k₂ k₃ : κ} (hcard : s.card = 3) (h₁ : k₁ ∈ s)
+    (h₂ : k₂ ∈ s) (h₃ : k₃ ∈ s) (h12 : k₁ ≠ k₂) (h13 : k₁ ≠ k₃) (h23 : k₂ ≠ k₃) (f : κ → M)
+    (P : κ → M → Prop) :
+    (∀ i ∈ s, P i (f i)) ↔ P k₁ (f k₁) ∧ P k₂ (f k₂) ∧ P k₃ (f k₃) := by
+  have h := dict_all_enum (s := s) (l := [k₁, k₂, k₃]) (by simp [h12, h13, h23])
+    (by simp [h₁, h₂, h₃]) (by simpa using hcard) f P
+  simpa using h
+
+/-- the fold `size` (sum fold with term `1`, integer valued) is the cardinality of the key set -/
+theorem dict_size_eq_card (s : Finset κ) : ∑ _i ∈ s, (1 : ℤ) = (s.card : ℤ) := by
+  simp
+
+/-- the facts `nth_item` states about the items themselves: the first `n` items of a dict of
+size `≥ n` can be chosen as pairwise distinct members (existence of an enumeration). -/
+theorem exists_enum (s : Finset κ) :
+    ∃ l : List κ, l.Nodup ∧ (∀ k, k ∈ l ↔ k ∈ s) ∧ l.length = s.card :=
+  ⟨s.toList, s.nodup_toList, fun _ => Finset.mem_toList, Finset.length_toList s⟩
+
+end L11
+
+/-! ## L12-count, L13-origin : the value of a dict at an assignment -/
+
+section DVal
+variable [CommRing R]
+
+/-- value of the polynomial stored as the dict with key set `s` and coefficient map `f`, at the
+assignment `x` (`bden` for `x = xval`, `sden` for `x = zval`, `aden`/`asden` at the second
+ghost assignment) -/
+def dval (x : α → R) (s : Finset (List α)) (f : List α → R) : R := ∑ k ∈ s, f k * mono x k
+
+/-- the linearised term `_bterm` of `folds.py` is `v * bmono k` -/
+theorem bterm_eq_mul [DecidableEq R] (v m : R) :
+    (if m = 0 then 0 else if m = 1 then v else v * m) = v * m := by
+  split_ifs with h0 h1
+  · rw [h0, mul_zero]
+  · rw [h1, mul_one]
+  · rfl
+
+/-- the linearised term `_sterm` of `folds.py` is `v * smono k` -/
+theorem sterm_eq_mul [DecidableEq R] (v m : R) :
+    (if m = 1 then v else if m = -1 then -v else v * m) = v * m := by
+  split_ifs with h0 h1
+  · rw [h0, mul_one]
+  · rw [h1, mul_neg, mul_one]
+  · rfl
+
+/-! ### L12-count -/
+
+/-- for a 0/1 assignment the sum of the monomials is the number of monomials equal to `1` -/
+theorem sum_mono_bool_eq_count [DecidableEq R] {x : α → R} (hx : ∀ i, x i = 0 ∨ x i = 1)
+    (s : Finset (List α)) :
+    ∑ k ∈ s, mono x k = ((s.filter (fun k => mono x k = 1)).card : R) := by
+  rw [Finset.card_filter]
+  push_cast
+  refine Finset.sum_congr rfl (fun k _ => ?_)
+  split_ifs with h
+  · exact h
+  · rcases mono_bool_range hx k with h0 | h1
+    · exact h0
+    · exact absurd h1 h
+
+/-- L12: all coefficients equal to `c`  ⇒  value = `c * #{k | mono x k = 1}` -/
+theorem dval_const_count [DecidableEq R] {x : α → R} (hx : ∀ i, x i = 0 ∨ x i = 1)
+    (s : Finset (List α)) (f : List α → R) (c : R) (hc : ∀ k ∈ s, f k = c) :
+    dval x s f = c * ((s.filter (fun k => mono x k = 1)).card : R) := by
+  unfold dval
+  rw [← sum_mono_bool_eq_count hx, Finset.mul_sum]
+  exact Finset.sum_congr rfl (fun k hk => by rw [hc k hk])
+
+theorem count_le_size {κ : Type*} (s : Finset κ) (p : κ → Prop) [DecidablePred p] :
+    (s.filter p).card ≤ s.card := Finset.card_filter_le s p
+
+/-- L12 in the existential form emitted by the verifier: `bden = c * cnt`, `0 ≤ cnt ≤ size`
+(`cnt : ℕ`, so `0 ≤ cnt` is built in). -/
+theorem dval_const_count_exists {x : α → R} (hx : ∀ i, x i = 0 ∨ x i = 1)
+    (s : Finset (List α)) (f : List α → R) (c : R) (hc : ∀ k ∈ s, f k = c) :
+    ∃ m : ℕ, m ≤ s.card ∧ dval x s f = c * (m : R) := by
+  classical
+  exact ⟨_, count_le_size s _, dval_const_count hx s f c hc⟩
+
+/-- the same with an integer counter, literally `cnt >= 0 ∧ cnt <= size ∧ bden = c * to_real cnt` -/
+theorem dval_const_count_int {x : α → ℝ} (hx : ∀ i, x i = 0 ∨ x i = 1)
+    (s : Finset (List α)) (f : List α → ℝ) (c : ℝ) (hc : ∀ k ∈ s, f k = c) :
+    ∃ cnt : ℤ, 0 ≤ cnt ∧ cnt ≤ (s.card : ℤ) ∧ dval x s f = c * (cnt : ℝ) := by
+  obtain ⟨m, hm, h⟩ := dval_const_count_exists hx s f c hc
+  refine ⟨(m : ℤ), Int.natCast_nonneg m, by exact_mod_cast hm, ?_⟩
+  rw [h]
+  push_cast
+  rfl
+
+/-! ### L13-origin -/
+
+/-- at an assignment that is `0` on the labels of `k`, the monomial is `1` iff `k` is empty -/
+theorem mono_of_all_zero {x : α → R} {k : List α} (h : ∀ i ∈ k, x i = 0) :
+    mono x k = if k.length = 0 then 1 else 0 := by
+  cases k with
+  | nil => simp [mono]
+  | cons a l =>
+    rw [mono_cons, h a (List.mem_cons_self ..), zero_mul]
+    simp
+
+/-- at an assignment that is `1` on the labels of `k`, the monomial is `1` -/
+theorem mono_of_all_one {z : α → R} {k : List α} (h : ∀ i ∈ k, z i = 1) : mono z k = 1 := by
+  induction k with
+  | nil => exact mono_nil z
+  | cons a l ih =>
+    rw [mono_cons, h a (List.mem_cons_self ..), one_mul]
+    exact ih (fun i hi => h i (List.mem_cons_of_mem a hi))
+
+/-- the origin: every boolean variable `0` -/
+theorem mono_origin {x : α → R} (hx : ∀ i, x i = 0) (k : List α) :
+    mono x k = if k.length = 0 then 1 else 0 :=
+  mono_of_all_zero (fun i _ => hx i)
+
+/-- at the origin every spin is `+1` … -/
+theorem zval_origin {x : α → R} (hx : ∀ i, x i = 0) (i : α) : zval x i = 1 := by
+  unfold zval
+  rw [hx i]
+  ring
+
+/-- … so every spin monomial is `1` -/
+theorem mono_zval_origin {x : α → R} (hx : ∀ i, x i = 0) (k : List α) :
+    mono (zval x) k = 1 :=
+  mono_of_all_one (fun i _ => zval_origin hx i)
+
+/-- the pair of facts emitted by `_origin_key` -/
+theorem origin_key {x : α → R} (hx : ∀ i, x i = 0) (k : List α) :
+    mono x k = (if k.length = 0 then 1 else 0) ∧ mono (zval x) k = 1 :=
+  ⟨mono_origin hx k, mono_zval_origin hx k⟩
+
+/-- L13: the boolean value at the origin is the coefficient of the empty key (`0` if absent) -/
+theorem dval_origin [DecidableEq α] {x : α → R} (hx : ∀ i, x i = 0) (s : Finset (List α))
+    (f : List α → R) : dval x s f = if [] ∈ s then f [] else 0 := by
+  unfold dval
+  have h : ∀ k ∈ s, f k * mono x k = if k = [] then f [] else 0 := by
+    intro k _
+    rw [mono_origin hx k]
+    cases k with
+    | nil => simp
+    | cons a l => simp
+  rw [Finset.sum_congr rfl h, Finset.sum_ite_eq']
+
+/-- L13, spin side: the value at the all-`(+1)` assignment is the sum of all coefficients -/
+theorem dval_all_one {z : α → R} (hz : ∀ i, z i = 1) (s : Finset (List α)) (f : List α → R) :
+    dval z s f = ∑ k ∈ s, f k := by
+  unfold dval
+  exact Finset.sum_congr rfl (fun k _ => by rw [mono_of_all_one (fun i _ => hz i), mul_one])
+
+theorem dval_zval_origin {x : α → R} (hx : ∀ i, x i = 0) (s : Finset (List α))
+    (f : List α → R) : dval (zval x) s f = ∑ k ∈ s, f k :=
+  dval_all_one (zval_origin hx) s f
+
+/-- the constant term is also the fold `constpart` of `folds.py` -/
+theorem dval_origin_eq_constpart [DecidableEq α] {x : α → R} (hx : ∀ i, x i = 0)
+    (s : Finset (List α)) (f : List α → R) :
+    dval x s f = ∑ k ∈ s, (if k.length = 0 then f k else 0) := by
+  unfold dval
+  refine Finset.sum_congr rfl (fun k _ => ?_)
+  rw [mono_origin hx k]
+  split_ifs <;> simp
+
+end DVal
+
+/-! ## intp-closure : the integers inside `ℝ` -/
+
+section Intp
+
+/-- `intp t` : the real number `t` is an integer -/
+def IsInt (x : ℝ) : Prop := ∃ k : ℤ, x = (k : ℝ)
+
+/-- the witness fact `intp t → t = to_real k_t` is the definition -/
+theorem isInt_witness {x : ℝ} (h : IsInt x) : ∃ k : ℤ, x = (k : ℝ) := h
+
+theorem isInt_intCast (k : ℤ) : IsInt (k : ℝ) := ⟨k, rfl⟩
+
+theorem isInt_natCast (n : ℕ) : IsInt (n : ℝ) := ⟨(n : ℤ), by push_cast; rfl⟩
+
+theorem isInt_zero : IsInt 0 := ⟨0, by norm_num⟩
+theorem isInt_one : IsInt 1 := ⟨1, by norm_num⟩
+theorem isInt_neg_one : IsInt (-1) := ⟨-1, by norm_num⟩
+theorem isInt_two : IsInt 2 := ⟨2, by norm_num⟩
+
+theorem isInt_add {a b : ℝ} (ha : IsInt a) (hb : IsInt b) : IsInt (a + b) := by
+  obtain ⟨m, rfl⟩ := ha
+  obtain ⟨n, rfl⟩ := hb
+  exact ⟨m + n, by push_cast; rfl⟩
+
+theorem isInt_sub {a b : ℝ} (ha : IsInt a) (hb : IsInt b) : IsInt (a - b) := by
+  obtain ⟨m, rfl⟩ := ha
+  obtain ⟨n, rfl⟩ := hb
+  exact ⟨m - n, by push_cast; rfl⟩
+
+theorem isInt_mul {a b : ℝ} (ha : IsInt a) (hb : IsInt b) : IsInt (a * b) := by
+  obtain ⟨m, rfl⟩ := ha
+  obtain ⟨n, rfl⟩ := hb
+  exact ⟨m * n, by push_cast; rfl⟩
+
+theorem isInt_neg {a : ℝ} (ha : IsInt a) : IsInt (-a) := by
+  obtain ⟨m, rfl⟩ := ha
+  exact ⟨-m, by push_cast; rfl⟩
+
+theorem isInt_ite (c : Prop) [Decidable c] {a b : ℝ} (ha : IsInt a) (hb : IsInt b) :
+    IsInt (if c then a else b) := by
+  split_ifs
+  · exact ha
+  · exact hb
+
+/-- n-ary `+` and `*` (z3's `Z3_OP_ADD` / `Z3_OP_MUL` take any number of arguments) -/
+theorem isInt_list_sum {l : List ℝ} (h : ∀ a ∈ l, IsInt a) : IsInt l.sum := by
+  induction l with
+  | nil => simpa using isInt_zero
+  | cons a l ih =>
+    rw [List.sum_cons]
+    exact isInt_add (h a (List.mem_cons_self ..)) (ih (fun b hb => h b (List.mem_cons_of_mem a hb)))
+
+theorem isInt_list_prod {l : List ℝ} (h : ∀ a ∈ l, IsInt a) : IsInt l.prod := by
+  induction l with
+  | nil => simpa using isInt_one
+  | cons a l ih =>
+    rw [List.prod_cons]
+    exact isInt_mul (h a (List.mem_cons_self ..)) (ih (fun b hb => h b (List.mem_cons_of_mem a hb)))
+
+/-- numerals: a rational numeral is an integer iff its (reduced) denominator is `1` -/
+theorem isInt_ratCast_iff (q : ℚ) : IsInt (q : ℝ) ↔ q.den = 1 := by
+  constructor
+  · rintro ⟨k, hk⟩
+    have hq : q = (k : ℚ) := by exact_mod_cast hk
+    rw [hq]
+    exact Rat.den_intCast k
+  · intro h
+    refine ⟨q.num, ?_⟩
+    have hq : (q.num : ℚ) = q := Rat.coe_int_num_of_den_eq_one h
+    exact_mod_cast hq.symm
+
+/-- a 0/1 value is an integer (`x == 0 or x == 1` gives `intp x` by congruence) -/
+theorem isInt_of_bool {x : ℝ} (h : x = 0 ∨ x = 1) : IsInt x := by
+  rcases h with h | h <;> rw [h]
+  · exact isInt_zero
+  · exact isInt_one
+
+/-- the abstraction is sound w.r.t. the interpreted predicate: `IsInt x ↔ x = ⌊x⌋`
+(z3's `is_int`) -/
+theorem isInt_iff_floor (x : ℝ) : IsInt x ↔ x = (⌊x⌋ : ℝ) := by
+  constructor
+  · rintro ⟨k, rfl⟩
+    rw [Int.floor_intCast]
+  · exact fun h => ⟨⌊x⌋, h⟩
+
+end Intp
+
 /-! ## Sanity instantiations at `α := ℕ`, `R := ℝ` / `ℚ` -/
 
 section Inst
@@ -1143,6 +1547,22 @@ example (x : ℕ → ℝ) (S : Finset ℕ) (k : List ℕ) :
       * mono x (k.filter (fun i => decide (i ∈ S))) := mono_split x (· ∈ S) k
 
 example : ∃ a : ℕ → Bool, slack true a 3 = 5 := slack_log_attained 3 5 (by norm_num)
+
+example (x : ℕ → ℝ) (s : Finset (List ℕ)) (f : List ℕ → ℝ) (k₁ k₂ : List ℕ) (hcard : s.card = 2)
+    (h₁ : k₁ ∈ s) (h₂ : k₂ ∈ s) (h : k₁ ≠ k₂) :
+    dval x s f = f k₁ * mono x k₁ + f k₂ * mono x k₂ :=
+  dict_sum_enum_two hcard h₁ h₂ h f (fun k v => v * mono x k)
+
+example (x : ℕ → ℝ) (hx : ∀ i, x i = 0 ∨ x i = 1) (s : Finset (List ℕ)) (f : List ℕ → ℝ)
+    (hc : ∀ k ∈ s, f k = 3) : ∃ m : ℕ, m ≤ s.card ∧ dval x s f = 3 * (m : ℝ) :=
+  dval_const_count_exists hx s f 3 hc
+
+example (x : ℕ → ℝ) (hx : ∀ i, x i = 0) (s : Finset (List ℕ)) (f : List ℕ → ℝ) :
+    dval x s f = if [] ∈ s then f [] else 0 := dval_origin hx s f
+
+example (a b : ℝ) (c : Prop) [Decidable c] (ha : IsInt a) (hb : IsInt b) :
+    IsInt (if c then a * b - 2 else -a + 1) :=
+  isInt_ite c (isInt_sub (isInt_mul ha hb) isInt_two) (isInt_add (isInt_neg ha) isInt_one)
 
 end Inst
 
@@ -1303,3 +1723,60 @@ end Qvc
 #print axioms Qvc.real_le_cap_size
 #print axioms Qvc.le_cap_numBits
 #print axioms Qvc.slack_attained_numBits
+#print axioms Qvc.finset_eq_of_card_nodup
+#print axioms Qvc.mem_iff_of_card_nodup
+#print axioms Qvc.dict_sum_enum
+#print axioms Qvc.dict_all_enum
+#print axioms Qvc.finsupp_sum_enum
+#print axioms Qvc.dict_dom_chain
+#print axioms Qvc.dict_dom_chain_empty
+#print axioms Qvc.dict_val_chain
+#print axioms Qvc.dict_enum_chain
+#print axioms Qvc.finset_card_zero_enum
+#print axioms Qvc.finset_card_one_enum
+#print axioms Qvc.finset_card_two_enum
+#print axioms Qvc.finset_card_three_enum
+#print axioms Qvc.dict_sum_enum_zero
+#print axioms Qvc.dict_sum_enum_one
+#print axioms Qvc.dict_sum_enum_two
+#print axioms Qvc.dict_sum_enum_three
+#print axioms Qvc.dict_all_enum_zero
+#print axioms Qvc.dict_all_enum_one
+#print axioms Qvc.dict_all_enum_two
+#print axioms Qvc.dict_all_enum_three
+#print axioms Qvc.dict_size_eq_card
+#print axioms Qvc.exists_enum
+#print axioms Qvc.bterm_eq_mul
+#print axioms Qvc.sterm_eq_mul
+#print axioms Qvc.sum_mono_bool_eq_count
+#print axioms Qvc.dval_const_count
+#print axioms Qvc.count_le_size
+#print axioms Qvc.dval_const_count_exists
+#print axioms Qvc.dval_const_count_int
+#print axioms Qvc.mono_of_all_zero
+#print axioms Qvc.mono_of_all_one
+#print axioms Qvc.mono_origin
+#print axioms Qvc.zval_origin
+#print axioms Qvc.mono_zval_origin
+#print axioms Qvc.origin_key
+#print axioms Qvc.dval_origin
+#print axioms Qvc.dval_all_one
+#print axioms Qvc.dval_zval_origin
+#print axioms Qvc.dval_origin_eq_constpart
+#print axioms Qvc.isInt_witness
+#print axioms Qvc.isInt_intCast
+#print axioms Qvc.isInt_natCast
+#print axioms Qvc.isInt_zero
+#print axioms Qvc.isInt_one
+#print axioms Qvc.isInt_neg_one
+#print axioms Qvc.isInt_two
+#print axioms Qvc.isInt_add
+#print axioms Qvc.isInt_sub
+#print axioms Qvc.isInt_mul
+#print axioms Qvc.isInt_neg
+#print axioms Qvc.isInt_ite
+#print axioms Qvc.isInt_list_sum
+#print axioms Qvc.isInt_list_prod
+#print axioms Qvc.isInt_ratCast_iff
+#print axioms Qvc.isInt_of_bool
+#print axioms Qvc.isInt_iff_floor
